@@ -1,5 +1,6 @@
 import CalVerif.Lemmas.PtgXlsb
 import CalVerif.Lemmas.PtgPanics
+import CalVerif.Lemmas.PtgSpecEnv
 /-! # C14 — formulas are reported with the A1 text the token stream encodes
 
     Theorems about the model of the two token decoders (`Model/Ptg.lean`: `pushColumn`, `cellRef`,
@@ -198,6 +199,37 @@ example :
     simp [e, toRpn, toRpnArgs] at ht
     rcases ht with rfl | rfl | rfl | rfl | rfl | rfl | rfl | rfl | rfl <;>
       simp [Tok.wf, Tok.sheetOk, CellRef.wf, hl, utf16Units] <;> decide
+
+/-! ## the final statements against the spec-level context -/
+
+/-- **xls, spec form.** Workbook context = sheet names, defined names, XTI table (`itab_first` per entry).
+    For every expression of the grammar whose fields fit BIFF8, whose 3-D references and names resolve
+    (`refsOk`) and whose encoding fits `cce`, the decoder returns the A1 text in which a 3-D reference names the
+    sheet `sheets[xtis[ixti]]` and a name token names `names[idx]` (`specEnv`, written from the property). -/
+theorem parse_formula_xls_spec (sheets names : List (List Char)) (xtis : List Int) (fmt : Nat → List Char)
+    (e : Expr) (harity : e.arityOk) (hwf : ∀ t ∈ toRpn e, t.wf true)
+    (hrefs : ∀ t ∈ toRpn e, t.refsOk sheets names xtis) (hlen : (encodeXls (toRpn e)).length < 65536) :
+    parseFormulaXls ⟨sheets, names, xtis, fmt⟩ (frameXls (encodeXls (toRpn e))) =
+      .ok (renderA1 (specEnv sheets names xtis fmt) e) := by
+  rw [parse_formula_xls_correct _ e harity hwf hlen]
+  congr 1
+  exact renderA1_congr _ _ e (fun t ht => tok_agree_xls sheets names xtis fmt t (hrefs t ht))
+
+/-- **xlsb, spec form.** The decoder receives the extern-sheet table the workbook reader resolved
+    (`resolveExtern`: one sheet name per XTI entry); same conclusion. -/
+theorem parse_formula_xlsb_spec (sheets names : List (List Char)) (xtis : List Int) (fmt : Nat → List Char)
+    (e : Expr) (harity : e.arityOk) (hwf : ∀ t ∈ toRpn e, t.wf false)
+    (hrefs : ∀ t ∈ toRpn e, t.refsOk sheets names xtis) :
+    parseFormulaXlsb ⟨resolveExtern sheets xtis, names, [], fmt⟩ (encodeXlsb (toRpn e)) =
+      .ok (renderA1 (specEnv sheets names xtis fmt) e) := by
+  rw [parse_formula_xlsb_correct _ e harity
+    (fun t ht => ⟨hwf t ht, (tok_agree_xlsb sheets names xtis fmt t (hrefs t ht)).2⟩)]
+  congr 1
+  exact renderA1_congr _ _ e (fun t ht => (tok_agree_xlsb sheets names xtis fmt t (hrefs t ht)).1)
+
+/-- non-vacuity: `Data!IV$5` with XTI table [1, 0] and sheets [S1, Data] resolves -/
+example : (Tok.ref3d 1 0 ⟨4, 255, false, true⟩).refsOk ["S1".toList, "Data".toList] [] [1, 0] :=
+  ⟨1, rfl, by decide, by decide⟩
 
 /-! ## offsets: the stack of string offsets never goes wrong -/
 
